@@ -24,6 +24,7 @@ import re
 from collections import OrderedDict
 
 from sim import simfs as F
+from sim.envs import clear_process_caches
 from sim.core import Outcome, digest
 
 ID = "C25"
@@ -48,7 +49,7 @@ REAL_STUB = {
 BUDGET = {"quick": 25, "thorough": 600}
 NAMES = ("a", "b", "c")
 SIZES = (2, 0, 1, 3, -1, 400)
-KINDS = ("dict", "func-str", "func-triple", "fs")
+KINDS = ("dict", "func-str", "func-triple", "fs", "fs2")
 _VER = re.compile(r"^(\w+):v(\d+):7$")
 _setup_done = False
 
@@ -65,7 +66,8 @@ def setup() -> None:
 
 
 class Storage:
-    """The truth: name -> version, per loader generation."""
+    """The truth: which version each file holds, per loader generation.  kind 'fs2' has two search
+    directories (an override directory searched first, then a default directory)."""
 
     def __init__(self, kind: str, fs: F.SimFS) -> None:
         self.kind = kind
@@ -73,32 +75,63 @@ class Storage:
         self.next_version = 1
         self.gen = 0
         self.mapping: dict[str, str] = {}
+        self.files: dict[tuple[int, str], int] = {}
         self.cur: dict[str, int] = {}
-        self.dir = F.ROOT + "t0"
+        self.ndirs = 2 if kind == "fs2" else 1
+        self.dirs = [F.ROOT + f"t0d{i}" for i in range(self.ndirs)]
+
+    @property
+    def is_fs(self) -> bool:
+        return self.kind in ("fs", "fs2")
 
     def src(self, name: str, v: int) -> str:
         return f"{name}:v{v}:{{{{ x }}}}"
 
-    def write(self, name: str) -> int:
+    def _recompute(self, name: str) -> None:
+        for di in range(self.ndirs):
+            if (di, name) in self.files:
+                self.cur[name] = self.files[(di, name)]
+                return
+        self.cur.pop(name, None)
+
+    def write(self, name: str, di: int = 0) -> int:
+        di = di % self.ndirs
         v = self.next_version
         self.next_version += 1
-        self.cur[name] = v
-        if self.kind == "fs":
-            self.fs.put(f"{self.dir}/{name}", self.src(name, v).encode())
+        self.files[(di, name)] = v
+        if self.is_fs:
+            self.fs.put(f"{self.dirs[di]}/{name}", self.src(name, v).encode())
         else:
             self.mapping[name] = self.src(name, v)
+        self._recompute(name)
         return v
 
-    def delete(self, name: str) -> None:
-        self.cur.pop(name, None)
-        if self.kind == "fs":
-            self.fs.unlink(f"{self.dir}/{name}")
+    def delete(self, name: str, di: int = 0) -> None:
+        di = di % self.ndirs
+        self.files.pop((di, name), None)
+        if self.is_fs:
+            self.fs.unlink(f"{self.dirs[di]}/{name}")
         else:
             self.mapping.pop(name, None)
+        self._recompute(name)
 
-    def mtime(self, name: str):
-        ino = self.fs.names.get(f"{self.dir}/{name}")
+    def path_of(self, name: str):
+        """Path of the file a fresh load of `name` reads (first search directory that has it)."""
+        for di in range(self.ndirs):
+            if (di, name) in self.files:
+                return f"{self.dirs[di]}/{name}"
+        return None
+
+    def mtime_path(self, path):
+        ino = self.fs.names.get(path) if path else None
         return None if ino is None else ino.mtime
+
+    def version_at(self, path):
+        for di in range(self.ndirs):
+            pre = self.dirs[di] + "/"
+            if path and path.startswith(pre):
+                return self.files.get((di, path[len(pre):]))
+        return None
 
     def make_loader(self):
         import jinja2
@@ -115,19 +148,20 @@ class Storage:
                     return None
                 return s, None, (lambda: m.get(name) == s)
             return jinja2.FunctionLoader(load)
-        return jinja2.FileSystemLoader(self.dir)
+        return jinja2.FileSystemLoader(self.dirs[0] if self.ndirs == 1 else list(self.dirs))
 
     def swap(self) -> None:
         """New storage generation with different content for every name."""
         self.gen += 1
-        old = dict(self.cur)
+        old = dict(self.files)
+        self.files = {}
         self.cur = {}
-        if self.kind == "fs":
-            self.dir = F.ROOT + f"t{self.gen}"
+        if self.is_fs:
+            self.dirs = [F.ROOT + f"t{self.gen}d{i}" for i in range(self.ndirs)]
         else:
             self.mapping = {}
-        for name in old:
-            self.write(name)
+        for (di, name) in old:
+            self.write(name, di)
 
 
 def canon(name: str) -> str:
@@ -160,7 +194,8 @@ class Model:
             if fresh is True:
                 return {ent["version"]}, None
             if fresh == "either":
-                # same mtime, different content: the loader's check is legitimately blind
+                # same mtime, different content: the loader's check is legitimately blind.  A reload reads the
+                # file a fresh load finds (first search directory), which may differ from the watched one.
                 cur = st.cur.get(name)
                 def resolve(obs):
                     if obs == cur:
@@ -170,7 +205,7 @@ class Model:
         cur = st.cur.get(name)
         if cur is None:
             return {"notfound"}, None
-        if self.kind == "fs" and fault["kind"] in ("open", "getmtime"):
+        if self.kind in ("fs", "fs2") and fault["kind"] in ("open", "getmtime"):
             fault["kind"] = None
             return {"oserror"}, None
         self._insert(key, st, name)
@@ -185,10 +220,11 @@ class Model:
         if fault["kind"] == "getmtime":
             fault["kind"] = None  # consumed by the up-to-date check, which then reports "changed"
             return False
-        mt = st.mtime(name)
+        # the up-to-date check only watches the file the entry was loaded from
+        mt = st.mtime_path(ent["path"])
         if mt is None or mt != ent["mtime"]:
             return False
-        if cur != ent["version"]:
+        if st.version_at(ent["path"]) != ent["version"]:
             return "either"
         return True
 
@@ -200,7 +236,8 @@ class Model:
         elif self.size > 0 and len(self.lru) >= self.size:
             self.lru.popitem(last=False)
             self.evictions += 1
-        self.lru[key] = {"version": st.cur[name], "mtime": st.mtime(name) if self.kind == "fs" else None}
+        path = st.path_of(name) if st.is_fs else None
+        self.lru[key] = {"version": st.cur[name], "path": path, "mtime": st.mtime_path(path) if st.is_fs else None}
 
     evictions = 0
 
@@ -231,6 +268,7 @@ def _observe(env, names, fs):
 
 def run(tape) -> Outcome:
     setup()
+    clear_process_caches()  # a run must not depend on the runs before it in this worker
     import jinja2
 
     out = Outcome()
@@ -239,19 +277,19 @@ def run(tape) -> Outcome:
     size = SIZES[tape.draw(len(SIZES))]
     nnames = 2 + tape.draw(2)
     names = NAMES[:nnames]
-    faulty = kind == "fs" and tape.draw(4, "f") == 3
+    faulty = kind in ("fs", "fs2") and tape.draw(4, "f") == 3
     nops = 4 + tape.draw(11)
 
     clock = F.SimClock()
     fs = F.use(F.SimFS(clock))
     st = Storage(kind, fs)
     for n in names[: 1 + tape.draw(nnames)]:
-        st.write(n)
+        st.write(n, tape.draw(st.ndirs))
     env0 = jinja2.Environment(loader=st.make_loader(), auto_reload=auto_reload, cache_size=size)
     two_envs = tape.draw(3) == 2  # a second environment (overlay) sharing the loader object, with its own cache
     envs = [env0, env0.overlay()] if two_envs else [env0]
     models = [Model(size, auto_reload, kind) for _ in envs]
-    aliases = kind == "fs" and tape.draw(3) == 2  # './a' names: same file, different cache slot
+    aliases = kind in ("fs", "fs2") and tape.draw(3) == 2  # './a' names: same file, different cache slot
     req_names = list(names) + (["./" + n for n in names] if aliases else [])
     old_loaders = []
     ops_dec = []
@@ -265,7 +303,7 @@ def run(tape) -> Outcome:
     gc.disable()
     try:
         for i in range(nops):
-            k = tape.weighted([6, 2, 4, 2, 1, 1, 3, 1])
+            k = tape.weighted([6, 2, 4, 2, 1, 1, 3, 1, 1, 1])
             if k in (0, 1):
                 ei = tape.draw(len(envs)) if len(envs) > 1 else 0
                 env, model = envs[ei], models[ei]
@@ -338,20 +376,20 @@ def run(tape) -> Outcome:
                     seen_current.add((ei, canon(n)))
             elif k == 2:
                 n = tape.pick(names)
-                st.write(n)
+                st.write(n, tape.draw(st.ndirs))
                 pending |= {x for x in seen_current if x[1] == n}
                 seen_current = {x for x in seen_current if x[1] != n}
                 ops_dec.append(["modify", n, f"v{st.cur[n]}"])
             elif k == 3:
                 n = tape.pick(names)
-                st.delete(n)
+                st.delete(n, tape.draw(st.ndirs))
                 pending |= {x for x in seen_current if x[1] == n}
                 seen_current = {x for x in seen_current if x[1] != n}
                 ops_dec.append(["delete", n])
             elif k == 4:
                 n = tape.pick(names)
                 if n not in st.cur:
-                    st.write(n)
+                    st.write(n, tape.draw(st.ndirs))
                     pending |= {x for x in seen_current if x[1] == n}
                     seen_current = {x for x in seen_current if x[1] != n}
                 ops_dec.append(["add", n])
@@ -370,10 +408,27 @@ def run(tape) -> Outcome:
                 d = (0.0, 1.0, 5.0, -1.0, -3600.0, 86400.0)[tape.draw(6)]
                 clock.advance(d)
                 ops_dec.append(["tick", d])
-            else:
+            elif k == 7:
                 old_loaders.clear()
                 gc.collect()
                 ops_dec.append(["gc"])
+            elif k == 8:
+                # a new overlay of the (already used) first environment replaces / becomes the second environment
+                ov = env0.overlay()
+                if len(envs) > 1:
+                    envs[1], models[1] = ov, Model(size, auto_reload, kind)
+                else:
+                    envs.append(ov)
+                    models.append(Model(size, auto_reload, kind))
+                seen_current = {x for x in seen_current if x[0] != 1}
+                pending = {x for x in pending if x[0] != 1}
+                ops_dec.append(["new_overlay"])
+            else:
+                ei = tape.draw(len(envs)) if len(envs) > 1 else 0
+                if envs[ei].cache is not None:
+                    envs[ei].cache.clear()
+                    models[ei].lru.clear()
+                ops_dec.append([f"env{ei}", "cache.clear"])
             if size > 0 and any(len(e_.cache) > size for e_ in envs):
                 out.violate(("over-capacity", f"size{size}"), op=i, ops=ops_dec)
                 break
